@@ -42,7 +42,7 @@ BUDGET = {
 REQUIRED_PROBES = ["not_done_polls", "error_history", "response_history", "unimported_type", "fully_qualified_name",
                    "relative_name", "empty_response", "raw_operation", "poll_fault_retried", "poll_fault_surfaced",
                    "initial_done", "async_future", "metadata_checked", "long_poll_over_60s", "concurrent_futures", "rest_future",
-                   "rest_polls"]
+                   "rest_polls", "rest_poll_rule_with_additional_bindings"]
 ASSUMPTIONS = ["operation_info names that are relative AND nested (Outer.Inner) are excluded (DESIGN.md section 3)",
                "api-core's default polling policy (1 s x1.5 up to 20 s, 900 s budget) is the reference for liveness"]
 
@@ -54,6 +54,11 @@ def gen_spec(rng):
 def resolve(name, pkg):
     """operation_info type name -> full name, relative to the method's package."""
     return name if "." in name else f"{pkg}.{name}"
+
+
+def _get_operation_rule(spec):
+    return next((r for r in ((spec.get("service_yaml") or {}).get("http") or {}).get("rules", [])
+                 if r["selector"] == "google.longrunning.Operations.GetOperation"), None)
 
 
 def lro_methods(spec):
@@ -97,6 +102,12 @@ def gen_scenarios(spec, rng, n):
                 from . import c04
                 from .. import simhttp
                 c04._fill_path_vars(rng, op["request"], m, m["http"], "ok")
+                rule = _get_operation_rule(spec)
+                if rule and rule.get("additional_bindings") and rng.random() < 0.6:
+                    # an operation name that only an ADDITIONAL binding of the YAML rule can carry
+                    tpl = rng.choice(rule["additional_bindings"])["get"]
+                    pat = re.search(r"\{name=([^}]*)\}", tpl).group(1)
+                    op["op_name"] = pat.replace("*", "x1", 1).replace("*", op["op_name"].rsplit("/", 1)[1])
                 op["poll_script"] = {k: (v if v in simhttp.ROUND_TRIP else "UNAVAILABLE") for k, v in (op.get("poll_script") or {}).items()}
                 if "error" in (op.get("final") or {}) and op["final"]["error"]["code"] not in simhttp.ROUND_TRIP:
                     op["final"]["error"]["code"] = rng.choice(simhttp.ROUND_TRIP)
@@ -303,13 +314,19 @@ def judge_op(spec, codec, scenario, op, evs, probes):
         if rest:
             import urllib.parse as _up
             u0, u = _up.urlsplit(attempts[0]["url"]), _up.urlsplit(a["url"])
-            rule = next((r for r in ((spec.get("service_yaml") or {}).get("http") or {}).get("rules", [])
-                         if r["selector"] == "google.longrunning.Operations.GetOperation"), None)
-            want_path = None
-            if rule and "get" in rule:
-                want_path = re.sub(r"\{name=[^}]*\}", op["op_name"], rule["get"])
-            if a["verb"] != "GET" or _up.unquote(u.path) != want_path:
-                return V("poll_wrong_path", f"poll was {a['verb']} {a['url']}; the service YAML rule prescribes GET {want_path}")
+            rule = _get_operation_rule(spec)
+            want_paths = []
+            from . import c06
+            for b in ([rule] + list(rule.get("additional_bindings", []))) if rule else []:
+                if "get" in b:
+                    pat = re.search(r"\{name=([^}]*)\}", b["get"]).group(1)
+                    if c06.match_template("{x=" + pat + "}", op["op_name"])[1] is not None:
+                        want_paths.append(re.sub(r"\{name=[^}]*\}", op["op_name"], b["get"]))
+            if len(want_paths) > 0 and rule.get("additional_bindings"):
+                _bump(probes, "rest_poll_rule_with_additional_bindings")
+            if a["verb"] != "GET" or _up.unquote(u.path) not in want_paths[:1]:
+                return V("poll_wrong_path", f"poll was {a['verb']} {a['url']}; the service YAML rule prescribes GET {want_paths[:1]} "
+                         f"(first binding that matches the operation name {op['op_name']!r})")
             if (u.scheme, u.netloc) != (u0.scheme, u0.netloc):
                 return V("poll_wrong_channel", f"poll went to host {u.netloc}; the method call used {u0.netloc}")
         else:
